@@ -23,7 +23,10 @@ Inputs ==
     {[e |-> "enable"], [e |-> "disable"]}
     \cup {[e |-> "sdw", s |-> s, d |-> d] : s \in {x \in States : Timed(x)}, d \in DurChoices}
     \cup {[e |-> "varw", v |-> 2]}
-    \cup (IF built THEN {[e |-> "iter", tm |-> clk + d, act |-> a.act, s |-> a.s] :
+    \cup (IF built THEN {[e |-> "iter", tm |-> clk + d, act |-> "none", s |-> None, av |-> w.av, ad |-> w.ad] :
+                            w \in {[av |-> 3, ad |-> -1], [av |-> -1, ad |-> 1]}, d \in {x \in Steps : x <= 1}}
+          ELSE {})
+    \cup (IF built THEN {[e |-> "iter", tm |-> clk + d, act |-> a.act, s |-> a.s, av |-> -1, ad |-> -1] :
                             d \in Steps, a \in {[act |-> "none", s |-> None], [act |-> "done", s |-> None]}
                                               \cup {[act |-> "ns", s |-> s] : s \in States}}
           ELSE {})
@@ -39,4 +42,6 @@ Probe_ExpireNext == ~Has("ExpireNext")
 Probe_ExpireEnd == ~Has("ExpireEnd")
 Probe_Reenter == ~(Has("Enter") /\ periods >= 2)
 Probe_UserNext == ~(Has("UserNext"))
+\* a value assigned by a state function is gone after the next on_enable()
+Probe_AssignedThenRestored == ~(Has("Enable") /\ periods >= 2 /\ uv # 3 /\ sdv # 3 /\ clk > 0)
 =============================================================================
